@@ -1,7 +1,7 @@
 #!/usr/bin/env python3
 """Development tool: run the checks against behaviour-preserving refactorings produced by sub-agents.
 
-usage: run_refactors.py <dir with a/ b/ c/ each holding patch.diff + meta.json> <property> [--keep]
+usage: run_refactors.py <dir with a/ b/ c/ each holding patch.diff + meta.json> <property> [--keep] [--tag=rg]
 Each patch is applied to a throw-away copy of /repo HEAD; the property's check must exit 0 (a VIOLATION is a false alarm of the
 checker; exit 2 means the check no longer recognises the code and fails closed).  With --keep the refactoring is stored as
 /verif/seeded/<property>-rf-<variant>/ (patch.diff, meta.json) and becomes a silent twin of the thorough tier.
@@ -9,24 +9,25 @@ checker; exit 2 means the check no longer recognises the code and fails closed).
 import json, os, pathlib, shutil, subprocess, sys, tempfile
 VERIF = pathlib.Path(__file__).resolve().parent.parent
 src = pathlib.Path(sys.argv[1]); prop = sys.argv[2]; keep = "--keep" in sys.argv
+tag = next((a.split("=", 1)[1] for a in sys.argv if a.startswith("--tag=")), "rf")  # batch label: seeded/<prop>-<tag>-<variant>/
 for v in sorted(p.name for p in src.iterdir() if (p / "patch.diff").exists()):
     tmp = pathlib.Path(tempfile.mkdtemp(prefix="rfrun_", dir="/tmp"))
     try:
         subprocess.run(f"git -C /repo archive HEAD | tar -x -C {tmp}", shell=True, check=True)
         p = subprocess.run(f"patch -p1 -s < {src / v / 'patch.diff'}", shell=True, cwd=tmp, capture_output=True, text=True)
         if p.returncode:
-            print(f"{prop}-rf-{v}: patch-failed {p.stdout[:100]}")
+            print(f"{prop}-{tag}-{v}: patch-failed {p.stdout[:100]}")
             continue
         c = subprocess.run("/venv/bin/python -m compileall -q snaxc", shell=True, cwd=tmp, capture_output=True, text=True)
         r = subprocess.run([str(VERIF / "verify"), prop, "--repo", str(tmp)], capture_output=True, text=True, env=dict(os.environ, VERIF_NO_EVIDENCE="1"))
         lines = [l for l in r.stdout.splitlines() if not l.startswith(("      fact", "KNOWN-FINDING", "note:"))]
-        print(f"{prop}-rf-{v}: compile={c.returncode} exit={r.returncode} {lines[-1][:110] if lines else r.stderr[-200:]}")
+        print(f"{prop}-{tag}-{v}: compile={c.returncode} exit={r.returncode} {lines[-1][:110] if lines else r.stderr[-200:]}")
         if r.returncode:
             for l in lines[:-1]:
                 if not l.startswith("VIOLATION"):
                     print("     ", l[:330])
         if keep:
-            dst = VERIF / "seeded" / f"{prop}-rf-{v}"
+            dst = VERIF / "seeded" / f"{prop}-{tag}-{v}"
             dst.mkdir(parents=True, exist_ok=True)
             shutil.copy(src / v / "patch.diff", dst / "patch.diff")
             meta = json.loads((src / v / "meta.json").read_text()) if (src / v / "meta.json").exists() else {}
